@@ -92,6 +92,10 @@ def run(repo, run, tier):
                            text="%s symmetry condition" % name)
     run.extra["flagged_symplectic"] = nflag
     shear_shape(repo, run, r4, upd, stepfn, dcol, kcol)
+    # the implicit symplectic methods (Gauss, implicit midpoint) are symplectic and reversible as the EXACT solution map of their stage equations:
+    # a step handed back with unconverged stages is neither; the acceptance typestate of C02.4 is therefore a necessary condition here too
+    from .c02 import newton
+    newton(repo, run, rule_id="C10.5")
 
 
 def shear_shape(repo, run, r4, upd, stepfn, dcol, kcol):
